@@ -530,7 +530,7 @@ func genC16(t *rapid.T) *C16Case {
 	f := GenFile(t, cfg)
 	uniquify(f, c16Auto)
 	c := &C16Case{File: f, Auto: c16Auto, Switches: map[string]string{"V": rapid.SampledFrom([]string{"A", "B", "zz"}).Draw(t, "v"), "W": rapid.SampledFrom([]string{"A", "1", "q"}).Draw(t, "w")}}
-	c.Path = rapid.SampledFrom([]string{"data/maps/Town/scripts.pory", "scripts.pory", `C:\decomp\data\scripts.pory`, "", "a b/ü.pory"}).Draw(t, "path")
+	c.Path = rapid.SampledFrom([]string{"data/maps/Town/scripts.pory", "scripts.pory", `C:\decomp\data\scripts.pory`, "", "a b/ü.pory", "data/My%20Town/100%.pory", "%s%d%v.pory"}).Draw(t, "path")
 	c.Gaps = drawGaps(t, len(PrintFile(f).Toks), true)
 	return c
 }
